@@ -13,6 +13,7 @@ type FileReader struct {
 	filePath  string
 	header    *FileHeader
 	swampName string // V3: read from after header. V2: empty until LoadIndex is called.
+	size      int64  // file size when the reader was opened
 }
 
 // NewFileReader opens a .hyd file for reading.
@@ -37,10 +38,17 @@ func NewFileReader(filePath string) (*FileReader, error) {
 		return nil, err
 	}
 
+	info, err := file.Stat()
+	if err != nil {
+		file.Close()
+		return nil, err
+	}
+
 	fr := &FileReader{
 		file:     file,
 		filePath: filePath,
 		header:   header,
+		size:     info.Size(),
 	}
 
 	// V3: read swamp name from after header
@@ -139,9 +147,20 @@ func (fr *FileReader) readNextBlock() (*Block, error) {
 	if err := blockHeader.Deserialize(headerBuf); err != nil {
 		return nil, err
 	}
+	// A block that claims to extend past the end of the file is the torn tail
+	// of an interrupted append (crash or power loss while the block was being
+	// written). Everything before it is intact, so treat it as end of data
+	// instead of failing the whole load. Checking the size first also keeps a
+	// damaged header from triggering an allocation larger than the file.
+	if int64(blockHeader.CompressedSize) > fr.size-(offset+BlockHeaderSize) {
+		return nil, io.EOF
+	}
 	// Read compressed data
 	compressedData := make([]byte, blockHeader.CompressedSize)
 	if _, err := io.ReadFull(fr.file, compressedData); err != nil {
+		if errors.Is(err, io.ErrUnexpectedEOF) {
+			return nil, io.EOF
+		}
 		return nil, err
 	}
 	// Parse block
